@@ -152,6 +152,14 @@ def directed(rng):
         # notifications of several array messages queued behind a running one when the server stops: still one message at a time
         add('stop-keeps-note-order-%d' % v, {'conc': 4, 'recvUnblocks': bool(v % 2)}, [S(note()), D, S(note(), call(1), arr=True), S(note(), call(2), arr=True), S(note(), arr=True), D,
                                                                                      [dict(a='stop'), dict(a='peerclose'), dict(a='stop')][v], D, hret('m1.1'), D, hret('m2.1'), D, hret('m3.1'), D, hret('m4.1'), D])
+        if v == 0:
+            # a limit above the number of processors of most machines is a limit all the same: 20 calls, one after the other
+            # (each one settled before the next arrives and each reply out before the next return: the judge's silent steps stay
+            # pinned), all twenty running at once in the middle
+            steps = []
+            for i in range(1, 21): steps += [S(call(i)), D]
+            for k in range(1, 21): steps += [hret('m%d.1' % k), D]
+            add('high-conc', {'conc': 20}, steps)
         # F2/F3: records after Stop
         add('f2-%d' % v, {}, [dict(a='stop'), D, dict(a='send', kind='garbage'), D])
         add('f2e-%d' % v, {}, [dict(a='stop'), D, dict(a='send', kind='empty'), D])
@@ -344,4 +352,4 @@ def run_check(prop, tier, seed, replay=None):
             print('  scenario %s rejected at event %d: %s' % (name, r['at'], json.dumps(r['event'])[:300]))
         return 1 if violations else 0
     finally:
-        shutil.rmtree(work, ignore_errors=True)
+        if not os.environ.get('VERIF_KEEP'): shutil.rmtree(work, ignore_errors=True)
